@@ -8,7 +8,7 @@ for P in ${PATCHES:-/verif/refactors/*/patch.diff}; do
   git -C $WT apply "$P" 2>/dev/null || { echo "$P: does not apply"; continue; }
   echo "### $P"
   for i in $(seq -w 1 20); do
-    out=$(/venv/bin/python -m sa.run --property C$i --repo $WT --no-controls 2>&1); rc=$?
+    out=$(timeout 300 /venv/bin/python -m sa.run --property C$i --repo $WT --no-controls 2>&1); rc=$?
     if [ $rc -ne 0 ]; then echo "$out" | grep -v "^KNOWN-FINDING" | grep -E "^  C[0-9]+\.R|ANALYSIS" | cut -c1-${CUT:-170}; fi
   done
 done
